@@ -113,9 +113,15 @@ func caseNameOf(s string) string {
 const (
 	connectReply  = "HTTP/1.1 200 Connection established\r\nX-Upstream: scripted\r\n\r\n"
 	connectReply0 = "HTTP/1.0 200 OK\r\n\r\n"
-	// a 2xx reply to CONNECT that carries a Content-Length (RFC 9110 9.3.6: the sender MUST NOT, the recipient MUST ignore it)
-	connectReplyCL = "HTTP/1.1 200 OK\r\nContent-Length: 5\r\n\r\n"
-	upgradeReply   = "HTTP/1.1 101 Switching Protocols\r\nConnection: Upgrade\r\nUpgrade: verif\r\nX-Origin: scripted\r\n\r\n"
+	// 2xx replies to CONNECT that carry a Content-Length and/or a Transfer-Encoding (RFC 9110 9.3.6: the
+	// sender MUST NOT, the recipient MUST ignore them): such a reply has no content, what follows the
+	// blank line is the tunnel's. Regression targets of finding F29 (dialvia used to hand connectHTTP a
+	// body built from these fields, and closing it drained the tunnel's first bytes).
+	connectReplyCL    = "HTTP/1.1 200 OK\r\nContent-Length: 5\r\n\r\n"
+	connectReplyCLBig = "HTTP/1.1 200 Connection established\r\nContent-Length: 300000\r\n\r\n"
+	connectReplyTE    = "HTTP/1.1 200 OK\r\nTransfer-Encoding: chunked\r\n\r\n"
+	connectReplyTECL  = "HTTP/1.1 200 Connection established\r\nTransfer-Encoding: chunked\r\nContent-Length: 5\r\n\r\n"
+	upgradeReply      = "HTTP/1.1 101 Switching Protocols\r\nConnection: Upgrade\r\nUpgrade: verif\r\nX-Origin: scripted\r\n\r\n"
 )
 
 // slotHandler: a raw target reached by a direct dial (or by the custom ConnectFunc).
